@@ -19,6 +19,7 @@ struct Tally {
     aux_phonetic: u64,
     aux_fixed: u64,
     sel_nonzero: u64,
+    sel_high: u64,
     sel_after_punct: u64,
     shrunk_lists: u64,
     ansi_readouts: u64,
@@ -34,6 +35,7 @@ fn flush(t: &Tally, out: &mut Out) {
     out.count("aux_compared_phonetic", t.aux_phonetic);
     out.count("aux_compared_fixed_with_mirror", t.aux_fixed);
     out.count("lists_with_nonzero_preselection", t.sel_nonzero);
+    out.count("lists_with_preselection_at_9_or_beyond", t.sel_high);
     out.count("lists_after_selection_preserving_punctuation_key", t.sel_after_punct);
     out.count("lists_shorter_than_previous_list", t.shrunk_lists);
 }
@@ -108,6 +110,9 @@ fn step(p: &mut Pair, e: &Ev, prev_len: &mut usize, spec0: &CfgSpec, files: &Use
     if sel > 0 {
         t.sel_nonzero += 1;
     }
+    if sel >= 9 {
+        t.sel_high += 1;
+    }
     if len < *prev_len {
         t.shrunk_lists += 1;
     }
@@ -178,10 +183,11 @@ fn run_history(p: &mut Pair, files: &UserFiles, evs: &[Ev], out: &mut Out, t: &m
             break;
         }
         let e = match e {
-            Ev::Commit(i) if *i >= usize::MAX - 1 => match &p.ex.screen {
+            Ev::Commit(i) if *i >= usize::MAX - 2 => match &p.ex.screen {
                 Some(rs) if rs.commit_len() > 0 => {
                     let h = (p.ex.highlight as usize).min(rs.commit_len() - 1);
-                    Ev::Commit(if *i == usize::MAX { h } else { (h + 1) % rs.commit_len() })
+                    // MAX = highlighted, MAX-1 = the next index, MAX-2 = the last index of the list
+                    Ev::Commit(if *i == usize::MAX { h } else if *i == usize::MAX - 1 { (h + 1) % rs.commit_len() } else { rs.commit_len() - 1 })
                 }
                 _ => continue,
             },
@@ -243,7 +249,7 @@ impl Prop for C02 {
     fn rule(&self) -> String {
         "protocol-selection histories (every key carries the index the front-end highlights, i.e. the last returned pre-selection, occasionally moved to another valid index): \
          (a) targeted: 40 words with long lists / learned selections / emoji typed, then every one of the 13 selection-preserving punctuation keys and `:` with every valid selection byte, then more keys; \
-         (b) exhaustive histories of length <= 3 (quick) / 4 (thorough) over a 12-event alphabet per method; (c) random histories of <= 48 events over all keys, three layouts, random options (suggestions mostly on), commits and restarts, \
+         (a2) 30 words with long lists: the last candidate is committed (learned), then the word and six suffix/punctuation forms are re-typed so that the pre-selected index is far down the list; (b) exhaustive histories of length <= 3 (quick) / 4 (thorough) over a 12-event alphabet per method; (c) random histories of <= 48 events over all keys, three layouts, random options (suggestions mostly on), commits and restarts, \
          a learned-selection store present and growing. Every returned suggestion is checked: length, index, auxiliary text (phonetic: shadow string of the typed characters; fixed: a mirror context with suggestions off fed the same events), \
          and every index is read as candidate and as pre-edit text under catch_unwind. distinct_nontrivial = distinct (method, options, auxiliary text, length, index) tuples checked."
             .into()
@@ -260,7 +266,7 @@ impl Prop for C02 {
     fn minima(&self, _tier: Tier) -> Vec<(&'static str, u64)> {
         vec![
             ("lists_checked", 50_000), ("single_strings_checked", 2_000), ("index_readouts", 200_000), ("index_readouts_with_ansi", 20_000), ("aux_compared_phonetic", 20_000),
-            ("aux_compared_fixed_with_mirror", 10_000), ("lists_with_nonzero_preselection", 1_000), ("lists_after_selection_preserving_punctuation_key", 2_000), ("lists_shorter_than_previous_list", 1_000),
+            ("aux_compared_fixed_with_mirror", 10_000), ("lists_with_nonzero_preselection", 1_000), ("lists_with_preselection_at_9_or_beyond", 20), ("lists_after_selection_preserving_punctuation_key", 2_000), ("lists_shorter_than_previous_list", 1_000),
         ]
     }
     fn classify(&self, classifier: &str, params: &Value, v: &Violation) -> bool {
@@ -325,6 +331,37 @@ impl Prop for C02 {
                     }
                 }
             }
+        }
+
+        // ---- (a2) learned choices far down long lists: commit the last candidate of words with long lists, then re-type the
+        // word and its suffix forms (the pre-selected index is then high), with protocol selection bytes throughout
+        let longs = ["a", "o", "e", "i", "ko", "ka", "ki", "chot", "bol", "kor", "mon", "din", "kal", "ban", "par", "sa", "ta", "na", "cool", "kkhet", "bis", "rog", "des", "bon", "char", "kot", "sob", "jon", "pot", "jol"];
+        for (wi, w) in longs.iter().enumerate() {
+            let mine = env.mine(item);
+            item += 1;
+            if !mine {
+                continue;
+            }
+            let spec = CfgSpec::new(Lay::Phonetic, if wi % 2 == 0 { O_PSUGG } else { O_PSUGG | O_ENG | O_SQ });
+            let Ok(mut p) = mk_pair(spec, &root) else { continue };
+            let files = snapshot(&root);
+            let mut evs: Vec<Ev> = vec![];
+            for round in 0..2 {
+                for c in w.chars() {
+                    evs.push(Ev::Key(kc(c), 0, 0xFF));
+                }
+                // a commit far from the highlighted index (placeholder resolved at run time: another valid index)
+                evs.push(if round == 0 { Ev::Commit(usize::MAX - 2) } else { Ev::Commit(usize::MAX) });
+            }
+            for sfx in ["i", "e", "er", "ta", "gulo", "."] {
+                for c in w.chars().chain(sfx.chars()) {
+                    evs.push(Ev::Key(kc(c), 0, 0xFF));
+                }
+                evs.push(Ev::Key(kc(','), 0, 0xFF));
+                evs.push(Ev::Finish);
+            }
+            out.begin_case(|| trace_json(&spec, &files, &evs));
+            run_history(&mut p, &files, &evs, out, &mut t);
         }
 
         // ---- (b) exhaustive short histories
